@@ -1,11 +1,13 @@
 #!/bin/sh
 # usage: try_mutant.sh <srcdir with patch.diff + zz_demo_test.go> <check id> [tier]
-# 1. confirms in a scratch worktree: demo fails with the patch, passes without, pinned suite passes with the patch
-# 2. applies the patch to /repo, runs the check, reverts /repo
+# Works entirely in a scratch worktree (never touches /repo or /verif/evidence):
+# 1. confirms: demo passes without the patch, fails with it, pinned suite passes with the patch
+# 2. runs the check against the patched worktree (VERIF_ALT_REPO)
 SRC=$1; ID=$2; TIER=${3:-quick}
 export GOFLAGS=-mod=mod GOPROXY=off GOSUMDB=off GOTOOLCHAIN=local
 W=/root/scratch/mut.$$
-git -C /repo worktree add -q "$W" HEAD || exit 2
+mkdir -p /root/scratch
+git -C /repo worktree add -q --detach "$W" HEAD || exit 2
 cp "$SRC/zz_demo_test.go" "$W/zz_demo_test.go"
 T=$(grep -o 'func TestDemo[A-Za-z0-9_]*' "$SRC/zz_demo_test.go" | head -1 | sed 's/func //')
 ( cd "$W" && go test -vet=off -count=1 -run "^$T\$" . > "$W.without.log" 2>&1 ); R0=$?
@@ -13,9 +15,7 @@ T=$(grep -o 'func TestDemo[A-Za-z0-9_]*' "$SRC/zz_demo_test.go" | head -1 | sed 
 ( cd "$W" && go test -vet=off -count=1 -run "^$T\$" . > "$W.with.log" 2>&1 ); R1=$?
 rm "$W/zz_demo_test.go"
 SUITE=$(/verif/tools/suite.sh "$W" 2>&1 | tr '\n' ' ')
-git -C /repo worktree remove --force "$W"
 echo "demo($T) without patch: exit $R0 (want 0); with patch: exit $R1 (want !=0); suite with patch: $SUITE"
 rm -f "$W.without.log" "$W.with.log"
-git -C /repo apply "$SRC/patch.diff" || exit 2
-cd /verif && ./vcheck run "$ID" "$TIER" 2>&1 | grep -E "^(VIOLATION|OK|INCONCLUSIVE|KNOWN|--- )" | cut -c1-260
-git -C /repo checkout -- . ; git -C /repo status --short
+cd /verif && VERIF_ALT_REPO="$W" ./vcheck run "$ID" "$TIER" 2>&1 | grep -a -E "^(VIOLATION|OK|INCONCLUSIVE|KNOWN|--- )" | cut -c1-260
+git -C /repo worktree remove --force "$W"
